@@ -15,7 +15,9 @@ VARIABLE rid
 F == INSTANCE Formats WITH MaxItems <- 0, fmt <- "", items <- <<>>
 
 MemOf(r) == {<<r.mem[i][1], r.mem[i][2]>> : i \in 1..Len(r.mem)}
-RecOk(r) == F!Describes(r.fmt, r.items, MemOf(r))
+\* a listing record also carries the statements the assembly produced (stmts); for repository programs only the memory is known
+RecOk(r) == /\ F!Describes(r.fmt, r.items, MemOf(r))
+            /\ (r.fmt = "listing" /\ r.check_stmts) => F!ShowsStatements(r.items, r.stmts)
 
 Init == rid \in 1..Len(Recs)
 Spec == Init /\ [][FALSE]_rid
